@@ -143,10 +143,16 @@ where
         mut y: Self::State,
         id: &ID,
     ) -> Result<(Self::State, Option<OneTimeKeyBundle>), Self::Error> {
-        let bundle = y
-            .onetime_bundles
-            .get_mut(id)
-            .and_then(|bundles| bundles.pop());
+        // Bundles were verified when they got added but might have expired in the meantime. Drop
+        // these and hand out the next valid one.
+        let bundle = y.onetime_bundles.get_mut(id).and_then(|bundles| {
+            while let Some(bundle) = bundles.pop() {
+                if bundle.verify().is_ok() {
+                    return Some(bundle);
+                }
+            }
+            None
+        });
         Ok((y, bundle))
     }
 }
